@@ -95,6 +95,56 @@ def gen_big_model(rng, nwords=700, nbigrams=2500):
     return {"order": 3, "grams": grams}
 
 
+def gen_filler_model(rng, n):
+    """a valid order-3 chain model with n filler words: its binary image grows smoothly with n, so n can be chosen to make
+    the image end just after a page boundary"""
+    body = ["f%03d" % i for i in range(n)]
+    vocab = ["<unk>", "<s>", "</s>"] + body
+    grams = {1: [("-99" if w == "<s>" else dy(rng), [w], None if w == "</s>" else dy(rng, 0, 100)) for w in vocab]}
+    chain = ["<s>"] + body + ["</s>"]
+    grams[2] = [(dy(rng), chain[i:i + 2], dy(rng, 0, 100)) for i in range(len(chain) - 1)]
+    grams[3] = [(dy(rng), chain[i:i + 3], None) for i in range(len(chain) - 2)]
+    return {"order": 3, "grams": grams}
+
+
+def arpa_sections(data):
+    """{n: [[word bytes]]} of a well-formed ARPA text"""
+    out, n = {}, 0
+    for l in data.split(b"\n"):
+        l = l.rstrip(b"\r")
+        m = re.match(rb"\\(\d+)-grams:$", l)
+        if m:
+            n = int(m.group(1)); out[n] = []
+        elif l == b"\\end\\":
+            n = 0
+        elif n and l.strip():
+            f = l.split(b"\t")
+            if len(f) >= 2:
+                out[n].append(f[1].split(b" "))
+    return out
+
+
+def vocab_strings_len(data):
+    """bytes of the vocabulary strings a binary built from this ARPA text carries after its image: <unk> first, NUL-terminated"""
+    return 6 + sum(len(w[0]) + 1 for w in arpa_sections(data).get(1, []) if w[0] not in (b"<unk>", b"<UNK>"))
+
+
+def image_cuts(rng, total_map, hdr, n):
+    """file lengths for truncations of the memory image [0, total_map): short by 1 .. about the header size, and ending
+    on / just after / just before the last page boundaries"""
+    cuts = {total_map - 1, total_map - hdr, total_map - hdr + 1, total_map - hdr - 1, total_map - 8}
+    for _ in range(n):
+        cuts.add(total_map - rng.range(1, hdr))
+        cuts.add(total_map - rng.range(1, 3 * hdr))
+    page = (total_map - 1) // 4096 * 4096
+    for p in (page, page - 4096):
+        for d in (-1, 0, 1, rng.range(2, 64)):
+            cuts.add(p + d)
+    cuts = sorted(c for c in cuts if hdr < c < total_map)
+    rng.shuffle(cuts)
+    return cuts[:n]
+
+
 def render(model, shuffle_rng=None):
     out = ["\\data\\"]
     for n in sorted(model["grams"]):
